@@ -561,6 +561,17 @@ Proof.
       split; [apply suffix_drop|rewrite len_drop; lia].
 Qed.
 
+(* normalisation of a state that a 0-byte drive would still move (see drive_settle) *)
+Definition settle (s : state) : state :=
+  match s with
+  | HeaderValues _ 0 0 => Header
+  | ParamsValues i _ 0 0 => Params i 0 0
+  | HeaderSkip 0 0 => Header
+  | ParamsSkip i 0 0 => Params i 0 0
+  | DoneSkip r 0 0 => Done r
+  | _ => s
+  end.
+
 (* ================= the state machine ================= *)
 Section Drive.
 Variable norm : bytes -> bytes.
@@ -1185,6 +1196,156 @@ Proof.
   unfold drive_all in E1.
   destruct (drive_add_gen d2 Hne _ _ _ _ _ _ _ Hs Hok Hsz E1 _ _ _ _ E2') as [F HF].
   exact (drive_all_eq _ _ _ _ _ _ Hs Hok Hsz HF).
+Qed.
+
+(* ---- settling: what a 0-byte drive does ---- *)
+Lemma settle_dec s :
+  (settle s = s) \/
+  (is_final s = false /\ settle (settle s) = settle s /\ kappa s = 1 /\
+   forall x, drive1 norm maxc s x = (Continue x (settle s), [])).
+Proof.
+  assert (L0 : forall x : bytes, (len x <? 0) = false) by (intros x; destruct (N.ltb_spec (len x) 0); [lia|reflexivity]).
+  assert (SK : forall wrap nxt x, skip_drive wrap nxt 0 0 x = Continue x nxt).
+  { intros wrap nxt x. unfold skip_drive. cbv zeta. change (0 + 0) with 0. rewrite L0. reflexivity. }
+  assert (VA : forall wrap nxt vars x, values_drive maxc wrap nxt vars 0 0 x = (Continue x nxt, [])).
+  { intros wrap nxt vars x. rewrite values_drive_p0. unfold values_finish. rewrite L0. reflexivity. }
+  destruct s as [|p q|vars p q|i p q|i p q|i vars p q|r p q|r|e]; try (left; reflexivity);
+    destruct p as [|pp]; try (left; reflexivity); destruct q as [|qq]; try (left; reflexivity);
+    right; cbn [settle is_final drive1 kappa]; repeat split; intros x; rewrite ?SK, ?VA; reflexivity.
+Qed.
+
+Lemma settle_idem s : settle (settle s) = settle s.
+Proof. destruct (settle_dec s) as [E|[_ [E _]]]; [rewrite E; exact E|exact E]. Qed.
+
+Lemma settle_ok s : state_ok s -> state_ok (settle s).
+Proof.
+  destruct s as [|p q|vars p q|i p q|i p q|i vars p q|r p q|r|e]; intros H; try exact H;
+    destruct p as [|pp]; try exact H; destruct q as [|qq]; try exact H; cbn [settle state_ok] in *;
+    try exact I; (split; [apply H|split; lia]).
+Qed.
+
+Lemma settle_final s : no00 s -> is_final (settle s) = is_final s.
+Proof.
+  destruct s as [|p q|vars p q|i p q|i p q|i vars p q|r p q|r|e]; intros H; try reflexivity;
+    destruct p as [|pp]; try reflexivity; destruct q as [|qq]; try reflexivity.
+  cbn [no00] in H. lia.
+Qed.
+
+Lemma settle_final_id s : is_final s = true -> settle s = s.
+Proof. destruct s; try discriminate; reflexivity. Qed.
+
+Lemma drive_fuel_S d : exists f, drive_fuel d = S f.
+Proof. exists (2 * length d + 3)%nat. unfold drive_fuel. lia. Qed.
+
+(* driving non-empty data from s and from settle s is the same *)
+Lemma drive_settle_nonempty s x : state_ok s -> bytes_ok x -> len x < SIZE_LIMIT -> x <> [] ->
+  drive_all norm maxc (settle s) x = drive_all norm maxc s x.
+Proof.
+  intros Hs Hok Hsz Hne. destruct (settle_dec s) as [E|[F [_ [_ E]]]]; [rewrite E; reflexivity|].
+  destruct (drive_all_ok (settle s) x (settle_ok s Hs) Hok Hsz) as [r [s' [o [E1 _]]]].
+  rewrite E1. symmetry. apply (drive_all_eq s x (S (drive_fuel x))); try assumption.
+  rewrite drive_S, E. destruct x as [|b x']; [contradiction|]. exact E1.
+Qed.
+
+Lemma ps_nil i : inner_ok i -> parse_stream norm i [] false = Some (i, 0).
+Proof.
+  intros Hi.
+  assert (Hsz : len (ibuf i ++ []) <= USIZE_MAX) by (apply s_size; [exact Hi|rewrite len_nil; unfold SIZE_LIMIT; lia]).
+  assert (Hnil : bytes_ok []) by constructor.
+  destruct (HS1 i [] false Hi Hnil Hsz) as [i' [c [E [_ [Hc _]]]]].
+  pose proof (HS2 i [] false i' c Hi Hnil Hsz E) as H2.
+  rewrite app_nil_r in H2. destruct Hi as [_ Hn]. rewrite (nv_run_none _ Hn) in H2.
+  destruct H2 as [Hreq Hbuf]. rewrite drop_nil, app_nil_r in Hbuf. cbn [env_extend fold_left] in Hreq.
+  rewrite len_nil in Hc. assert (c = 0) by lia. subst c. rewrite E.
+  destruct i as [rq bf], i' as [rq' bf']. cbn [ireq ibuf] in *. subst. reflexivity.
+Qed.
+
+Lemma drive1_nil_settled s : state_ok s -> settle s = s -> drive1 norm maxc s [] = (Break [] s, []).
+Proof.
+  intros Hs E.
+  destruct s as [|p q|vars p q|i p q|i p q|i vars p q|r p q|r|e]; cbn [drive1].
+  - rewrite header_drive_eq, try_head_short by (rewrite len_nil; lia). reflexivity.
+  - destruct p as [|pp]; [destruct q as [|qq]; [discriminate|]|]; reflexivity.
+  - destruct p as [|pp]; [destruct q as [|qq]; [discriminate|]|]; reflexivity.
+  - destruct Hs as [Hi _]. rewrite params_drive_eq. destruct p as [|pp].
+    + change (0 <? 0) with false. cbv iota. destruct q as [|qq].
+      * rewrite stage_pad_0. apply stage_head_nil.
+      * reflexivity.
+    + change (0 <? N.pos pp) with true. change (len [] <? N.pos pp) with true. cbv iota.
+      rewrite ps_nil by exact Hi. reflexivity.
+  - destruct p as [|pp]; [destruct q as [|qq]; [discriminate|]|]; reflexivity.
+  - destruct p as [|pp]; [destruct q as [|qq]; [discriminate|]|]; reflexivity.
+  - destruct p as [|pp]; [destruct q as [|qq]; [discriminate|]|]; reflexivity.
+  - reflexivity.
+  - reflexivity.
+Qed.
+
+(* a 0-byte drive only settles the state *)
+Lemma drive_settle s : state_ok s -> drive_all norm maxc s [] = DOk [] (settle s) [].
+Proof.
+  intros Hs. unfold drive_all. change (drive_fuel []) with 4%nat. rewrite drive_S.
+  destruct (settle_dec s) as [E|[_ [_ [_ E]]]].
+  - rewrite drive1_nil_settled by assumption. rewrite E. reflexivity.
+  - rewrite E. reflexivity.
+Qed.
+
+(* re-driving what a drive left over, without new input, only settles the state *)
+Lemma drive_requiesce : forall f s d out r s' o, state_ok s -> bytes_ok d -> len d < SIZE_LIMIT ->
+  drive norm maxc f s d out = DOk r s' o ->
+  drive_all norm maxc s' r = DOk r (settle s') [].
+Proof.
+  induction f as [|f IH]; intros s d out r s' o Hs Hok Hsz H; [discriminate|].
+  rewrite drive_S in H.
+  assert (Hok0 : bytes_ok (d ++ [])) by (rewrite app_nil_r; exact Hok).
+  assert (Hsz0 : len (d ++ []) < SIZE_LIMIT) by (rewrite app_nil_r; exact Hsz).
+  pose proof (drive1_add s d [] Hs Hok0 Hsz0) as A. unfold add_res in A.
+  pose proof (drive1_post s d Hs Hok Hsz) as P.
+  destruct (drive1 norm maxc s d) as [[r0 s0|r0 s0|n] o0] eqn:E1; cbn [step_post] in P.
+  - inversion H; subst r0 s0 o. rewrite !app_nil_r in A. rewrite E1 in A.
+    destruct (drive1 norm maxc s' r) as [f1 o1] eqn:E2. cbn [fst snd] in A.
+    inversion A as [[Hf Ho]]. assert (o1 = []).
+    { apply (app_inv_head o0). rewrite app_nil_r. symmetry. exact Ho. }
+    subst o1 f1.
+    assert (Es : settle s' = s').
+    { destruct (settle_dec s') as [Es|[_ [_ [_ Es]]]]; [exact Es|]. rewrite Es in E2. discriminate. }
+    rewrite Es. unfold drive_all. destruct (drive_fuel_S r) as [f' ->]. rewrite drive_S, E2. reflexivity.
+  - destruct P as [P1 [P2 [P3 P4]]]. destruct r0 as [|b r0'].
+    + inversion H; subst r s0 o. apply drive_settle. apply P1.
+    + apply (IH s0 (b :: r0') (out ++ o0) r s' o); [apply P1|eapply suffix_ok; eassumption| |exact H].
+      apply suffix_len in P3. lia.
+  - discriminate.
+Qed.
+
+Lemma drive_all_requiesce s d r s' o : state_ok s -> bytes_ok d -> len d < SIZE_LIMIT ->
+  drive_all norm maxc s d = DOk r s' o -> drive_all norm maxc s' r = DOk r (settle s') [].
+Proof. intros Hs Hok Hsz H. exact (drive_requiesce _ _ _ _ _ _ _ Hs Hok Hsz H). Qed.
+
+(* the original (A) for every d2, up to settling; with d2 = [] the second drive only settles *)
+Lemma drive_additive_settled s d1 d2 :
+  state_ok s -> bytes_ok d1 -> bytes_ok d2 -> len (d1 ++ d2) < SIZE_LIMIT ->
+  match drive_all norm maxc s (d1 ++ d2), drive_all norm maxc s d1 with
+  | DOk r s' o, DOk r1 s1 o1 =>
+    match drive_all norm maxc s1 (r1 ++ d2) with
+    | DOk r2 s2 o2 => r2 = r /\ o1 ++ o2 = o /\ settle s2 = settle s'
+    | _ => False
+    end
+  | _, _ => False
+  end.
+Proof.
+  intros Hs Hok1 Hok2 Hsz. destruct d2 as [|b d2'].
+  - rewrite !app_nil_r in *.
+    destruct (drive_all_ok s d1 Hs Hok1 Hsz) as [r1 [s1 [o1 [E1 _]]]]. rewrite E1.
+    rewrite (app_nil_r r1).
+    rewrite (drive_all_requiesce s d1 r1 s1 o1 Hs Hok1 Hsz E1). rewrite app_nil_r, settle_idem.
+    repeat split.
+  - rewrite (drive_additive' s d1 (b :: d2') ltac:(discriminate) Hs Hok1 Hok2 Hsz).
+    assert (Hsz1 : len d1 < SIZE_LIMIT) by (rewrite len_app in Hsz; lia).
+    destruct (drive_all_ok s d1 Hs Hok1 Hsz1) as [r1 [s1 [o1 [E1 [[G1 _] [G2 [G3 _]]]]]]]. rewrite E1.
+    assert (Hok3 : bytes_ok (r1 ++ b :: d2')).
+    { apply bytes_ok_app. split; [eapply suffix_ok; eassumption|exact Hok2]. }
+    assert (Hsz3 : len (r1 ++ b :: d2') < SIZE_LIMIT).
+    { apply suffix_len in G3. rewrite len_app in *. lia. }
+    destruct (drive_all_ok s1 _ G1 Hok3 Hsz3) as [r2 [s2 [o2 [E2 _]]]]. rewrite E2. repeat split.
 Qed.
 
 End Drive.
